@@ -994,6 +994,18 @@ def _find_self(
     if instance_i is not None and instance_i < len(args):
         return args[instance_i]
 
+    if "self" in kwargs:
+        return kwargs["self"]
+
+    # The first parameter of a method denotes the instance even if it is not named ``self``
+    # (*e.g.*, ``def some_method(this, x)`` or ``def some_method(*args)``).
+    if instance_i is None:
+        if len(args) > 0:
+            return args[0]
+
+        if len(param_names) > 0 and param_names[0] in kwargs:
+            return kwargs[param_names[0]]
+
     return kwargs["self"]
 
 
